@@ -599,12 +599,88 @@ def m_set_member(case):
     return bool(wrong) and all(m[0] in ("set_item_added", "set_item_removed") for m in wrong)
 
 
+def include_flip_directions(t1, t2, thr, keepkey):
+    """include_paths only (the key filter shrinks BOTH key sets of _diff_dict): the dict-vs-dict positions whose
+    whole-dict shortcut is decided differently on the filtered key sets, with the decision of the UNRESTRICTED
+    run: [(position, the unrestricted run reports the dictionary whole)]"""
+    out = []
+    if not thr:
+        return out
+    for p, d1, d2 in dict_pairs(t1, t2):
+        k1 = [k for k in d1 if not private(k)]
+        k2 = [k for k in d2 if not private(k)]
+        inter = [k for k in k2 if k in d1]
+        union = k2 + [k for k in k1 if k not in d2]
+        full = shortcut(len(inter), len(union), thr)
+        kept = [k for k in union if keepkey(p + [["k", V.canon_atom(k)]])]
+        kinter = [k for k in inter if keepkey(p + [["k", V.canon_atom(k)]])]
+        if shortcut(len(kinter), len(kept), thr) != full:
+            out.append((p, full))
+    return out
+
+
+def substring_with_threshold(case, t1, t2, opt, spec, incs):
+    """K13b next to K13a (seed 7: include_paths=["root[1]['root[0]']"], threshold 0.9 - the KEY TEXT 'root[0]' makes
+    the sibling level root[0] pass `level_path in prefix`, and at root[1] the key filter flips the whole-dict
+    shortcut): include_paths alone, threshold > 0.  Every wrong entry is attributed to exactly one mechanism:
+      * at / below an OUTERMOST dict position f whose shortcut the key filter flips (K13a, include variant), in the
+        predicted direction: the unrestricted run reports f whole -> `values_changed f` is the one missing entry
+        there and everything unexpected lies strictly below f; the filtered run reports f whole -> the reverse;
+      * elsewhere: an UNEXPECTED entry (never a missing one) that the unrestricted run with the same mode and
+        threshold reports, at a position unrelated to every include path as a key sequence, EVERY level of which
+        from the first unrelated one on passes the substring test of _skip_this (`prefix in level_path or level_path
+        in prefix`) - K13b where it acts.
+    Both parts must be present (either mechanism alone is the business of its own matcher)."""
+    if not opt["thr"] or opt.get("ex") or opt.get("rx") or value_opts(opt) or opt.get("io"):
+        return False
+    flips = include_flip_directions(t1, t2, opt["thr"], spec.keep)
+    if not flips:
+        return False
+
+    def outermost(p):
+        fs = [(f, full) for f, full in flips if is_prefix(f, p)]
+        return min(fs, key=lambda x: len(x[0])) if fs else None
+
+    def a_ok(kind, p, is_missing):
+        f, full = outermost(p)
+        at_f = (kind == "values_changed" and p == f)
+        # full: unrestricted = values_changed f only (missing), filtered goes deeper (extras strictly below f)
+        return at_f if (is_missing == full) else (len(p) > len(f))
+
+    def b_ok(p):
+        for n in range(1, len(p) + 1):
+            if not spec.included(p[:n]):
+                return all(any(render(p[:m]) in q or q in render(p[:m]) for q in incs) for m in range(n, len(p) + 1))
+        return False
+    base = None
+    na = nb = 0
+    for is_missing, entries in ((False, case.get("extra", [])), (True, case.get("missing", []))):
+        for kind, p in entries:
+            if outermost(p) is not None:
+                if not a_ok(kind, p, is_missing):
+                    return False
+                na += 1
+                continue
+            if is_missing or not b_ok(p):
+                return False
+            if base is None:
+                got, _ = run_tree(t1, t2, {"zip": opt["zip"], "thr": opt["thr"]})
+                if isinstance(got, tuple):
+                    return False
+                base = [json.loads(json.dumps(list(e[:2]))) for e in got]
+            if [kind, p] not in base:
+                return False
+            nb += 1
+    return na > 0 and nb > 0
+
+
 def m_include_substring(case):
     """K13b: an unexpected entry at or below a level that is unrelated (as a key
     sequence) to every include path but whose rendered path contains an include
-    string or is contained in one"""
+    string or is contained in one; nothing may be missing - except, at a positive threshold, what K13a explains
+    at a dictionary whose shortcut the key filter flips (`substring_with_threshold`)"""
     t1, t2, opt, P, spec = analyse(case)
-    if not opt.get("inc") or not tree_clause(case) or case.get("missing"):
+    if not opt.get("inc") or not tree_clause(case):
         return False
     incs = set(s for a in opt["inc"] for s in rooted(a))
     extra = [m[1] for m in case.get("extra", [])]
@@ -615,7 +691,9 @@ def m_include_substring(case):
                 s = render(p[:n])
                 return any(s in q or q in s for q in incs)
         return False
-    return bool(extra) and all(explained(p) for p in extra)
+    if not case.get("missing") and bool(extra) and all(explained(p) for p in extra):
+        return True
+    return substring_with_threshold(case, t1, t2, opt, spec, incs)
 
 
 def m_exclude_under_include(case):
